@@ -237,7 +237,9 @@ def execute(mod, tier: str, seed: int) -> int:
         return 2
     # vacuity guards
     missing = [k for k in plan.get("require_nonzero", []) if not total.stats.get(k)]
-    if missing:
+    if missing and not total.violations:
+        # (with violations the missing outcomes are a consequence of cases ending early at the
+        # disagreement; the violations are reported below instead)
         print(f"HARNESS FAULT: vacuous run, no case with outcome(s) {missing}")
         write_evidence(prop, tier, seed, total, mod, wall, False, 0)
         return 2
